@@ -183,7 +183,8 @@ fn w_pipe() {
                 let (a, b) = (rd.as_raw_fd() as usize, wr.as_raw_fd() as usize);
                 assert!(a != b && !before[a] && !before[b] && m::OPEN[a] && m::OPEN[b]);
                 assert!(m::OBJ[b] == m::OBJ[a] + 1);          // the two ends of one new pipe, read end first
-                assert!(!m::CLOEXEC[a] && !m::CLOEXEC[b]);    // plain pipe(): both ends are born inheritable (see D11)
+                // C08: both ends are BORN close-on-exec (pipe2): no window in which a child forked by another thread inherits them
+                assert!(m::CLOEXEC[a] && m::CLOEXEC[b]);
             }
             Err(_) => {
                 let mut i = 0;
